@@ -148,6 +148,8 @@ class Gamma(object):
             return True, "the {} (in bytes)".format(name)
         if c == "doc_question":
             return True, "is {} set?".format(name)
+        if c == "word_defaults":
+            return True, "the {}; overrides the library defaults".format(name)
         if c == "ellipsis":
             return True, "the {}, its friends, etc...".format(name)
         if c == "residue":
